@@ -128,6 +128,9 @@ def _run0(ck, fb):
         ck.require(t.op_tainted(sv[0][3]['ops'][0]), 'R07c', 'leader:index', sv[0][0].where(), 'recorded value is not request.index')
     hname = '<rnacos::raft::filestore::raftapply::StateApplyManager as actix::Handler<rnacos::raft::filestore::raftapply::StateApplyRequest>>::handle'
     h = ck.body(hname, 'R07c')
+    h = util.body_with_call(fb, h, r'StateApplyManager::apply_request_to_state_machine$')    # the batch loop may live in a helper
+    if h:
+        ck.analysed(h)
     if h:
         sv = util.sends(h, r'RaftIndexRequest$', 'SaveLastAppliedLog')
         ck.require(len(sv) >= 1, 'R07c', 'follower:SaveLastAppliedLog', h.where(), 'follower batch path does not record last-applied')
